@@ -38,8 +38,10 @@ def gen(rng, n, tier):
                                   allow_empty=rng.random() < 0.15) for (w, sh) in params]
                 ops.append(C.gen_ah(rng, ax, missed=(j == 0 or rng.random() < 0.1)))
         else:
+            empty_first = rng.random() < 0.3      # an accumulator that has no bins yet is no excuse for another width or shift
             axes = [C.gen_axisd(rng, "fixed", adaptive=True) for _ in range(nd)]
-            ops.append(C.gen_ah(rng, axes))
+            if empty_first: axes = [a[:4] + [0] + a[5:] for a in axes]
+            ops.append(C.gen_ah(rng, axes, missed=not empty_first))
             kind = rng.choice(["width", "shift", "ndim", "static"])
             for j in range(1, k):
                 if kind == "width": ax = [C.gen_axisd(rng, "fixed", w=a[1] * 2, shift=a[2], adaptive=True) for a in axes]
